@@ -38,7 +38,9 @@ for default in ("".join(["sho", "uld"]), "".join(["mu", "st"])):      # equal to
                            (["o.x"], []), ([], ["t.raw"]), ([], []), ({}, ()),      # declared but empty is not `undeclared`
                            (ONESHOT(["o.x"]), ONESHOT(["t.raw"])), (ONESHOT(["o.x"]), None),      # any iterable of names is accepted
                            # dict specs with the same top-level names and different contents (several builders live in one process)
-                           ({"o": ["y"]}, ["t.raw"]), ({"o": {"x": None, "p": ["q"]}}, ["t.raw"]), ({"o": ["x"], "t": ["k"]}, {"t": ["raw"]})):
+                           ({"o": ["y"]}, ["t.raw"]), ({"o": {"x": None, "p": ["q"]}}, ["t.raw"]), ({"o": ["x"], "t": ["k"]}, {"t": ["raw"]}),
+                           # leaves given as a set / a dict view instead of a list
+                           ({"o": {"x", "y"}}, {"t.raw"}), ({"o": {"x": None, "p": frozenset(["q"])}}, {"t": {"raw": None}.keys()})):
             CONFIGS.append({"default_operator": default, "nested_fields": nested, "object_fields": objs, "sub_fields": subs})
 
 EXTRA = ["o:c", "n:d", "o.y:c", "t.raw:b", "n:(m:g)", "n.m:g", "o:(x:c)", "o:(y:c)", "q.r:s", "n:(x:d OR z)", "n.x.raw:d",
@@ -126,7 +128,7 @@ def main():
     qs = queries(p["max_leaves"])
     qs += [q for q in ALWAYS_LONE if q not in qs]
     # the dict-spec variants differ from the others only in what they declare below `o` and `t`: paired with the queries that name those
-    late = {ci for ci, c in enumerate(CONFIGS) if isinstance(c["object_fields"], dict) and set(c["object_fields"]) != {"o"} or c["object_fields"] in ({"o": ["y"]}, {"o": {"x": None, "p": ["q"]}})}
+    late = {ci for ci, c in enumerate(CONFIGS) if isinstance(c["object_fields"], dict) and set(c["object_fields"]) != {"o"} or c["object_fields"] in ({"o": ["y"]}, {"o": {"x": None, "p": ["q"]}}, {"o": {"x", "y"}}, {"o": {"x": None, "p": frozenset(["q"])}})}
     items = [(q, ci) for q in qs for ci in range(len(CONFIGS)) if ci not in late or "o" in q or "t." in q or "t:" in q]
     res = pmap(check, items)
     failures = [f for r in res for f in r[1]]
